@@ -215,6 +215,14 @@ func finish(r *report.Run, us []*unit, results []*unitResult, deaths []deathRec,
 	subsumed := 0
 	var keys []string
 	for k, g := range groups {
+		if g.Kind == "resigned" && strings.HasSuffix(g.Class, "(signed)") && !strings.HasPrefix(g.Oracle, "process-death") {
+			// the same mutation fails without a valid signature too: one defect, one signature
+			base := strings.TrimSuffix(g.Class, "(signed)")
+			if _, ok := groups[fmt.Sprintf("%s|%02x|%s|%s|%s|%s", g.Reactor, g.Ch, g.Msg, g.Field, base, g.Oracle)]; ok {
+				subsumed++
+				continue
+			}
+		}
 		if !primaryKind(g.Kind) {
 			k2 := g.Reactor + "|" + strings.SplitN(g.Msg, "(", 2)[0] + "|" + g.Oracle
 			sub := false
